@@ -224,6 +224,53 @@ fn ob_c10_var_product_small_lo3(hi: u8, n: u8, ka: u8, a1: usize, a2: usize, x: 
     product_small(3, hi, n, ka, a1, a2, x, y, s)
 }
 
+// ---------------------------------------------------------------------------------------------
+// C09: the exhaustiveness verdict is "the depth has no upper bound", so the algebra must not LOSE an
+// upper bound (an over-approximation that is harmless for C10 turns into a false 'always' for C09)
+// ---------------------------------------------------------------------------------------------
+
+//@ob C09.var.upper-bound.conjunction-disjunction
+//@ props: C09
+//@ kind: complete
+//@ fns: src/token/variance/mod.rs::TokenVariance::conjunction src/token/variance/mod.rs::TokenVariance::disjunction src/token/variance/mod.rs::Variance::has_upper_bound src/token/variance/natural.rs::BoundedVariantRange::translation src/token/variance/natural.rs::BoundedVariantRange::opened_upper_bound src/token/variance/natural.rs::BoundedVariantRange::union
+//@ pre: a, b well-formed depth variances with bounds <= 2^62
+//@ post: a /\ b and a \/ b have an upper bound exactly when both operands have one: a concatenation or alternation of depth-bounded parts is never reported unbounded (no false 'always exhaustive'), and an unbounded part is never hidden
+fn ob_c09_var_upper_bound_conjunction_disjunction(ka: u8, a1: usize, a2: usize, kb: u8, b1: usize, b2: usize) {
+    vassume!(ka <= 4 && kb <= 4 && valid_tv(ka, a1, a2) && valid_tv(kb, b1, b2));
+    vassume!(magnitude(ka, a1, a2) <= BIG as u128 && magnitude(kb, b1, b2) <= BIG as u128);
+    let a: TV = mk_tv(ka, a1, a2);
+    let b: TV = mk_tv(kb, b1, b2);
+    vcover!(ka == 3 && kb == 0);
+    vcover!(ka == 4 && kb == 2);
+    let both = a.has_upper_bound() && b.has_upper_bound();
+    assert!(ops::conjunction(a, b).has_upper_bound() == both, "C09 a concatenation is depth-bounded exactly when both parts are");
+    assert!(ops::disjunction(a, b).has_upper_bound() == both, "C09 an alternation is depth-bounded exactly when both branches are");
+    assert!(a.has_upper_bound() == matches!(ka, 0 | 3 | 4), "C09 has_upper_bound reads the representation");
+}
+
+//@ob C09.var.upper-bound.product
+//@ props: C09
+//@ kind: bounded(repetition bounds enumerated: lower <= 3, upper <= 3 or open; the body's bounds symbolic up to 2^40)
+//@ fns: src/token/variance/mod.rs::TokenVariance::product src/token/variance/natural.rs::BoundedVariantRange::product
+//@ pre: a well-formed depth variance a, an enumerated repetition range r
+//@ post: a bounded body repeated a bounded number of times is depth-bounded (never a false 'always'); an unbounded body or an open repetition of a body with components is unbounded
+fn ob_c09_var_upper_bound_product(ka: u8, a1: usize, a2: usize, lo: u8, hi: u8) {
+    vassume!(ka <= 4 && valid_tv(ka, a1, a2) && magnitude(ka, a1, a2) <= M40 as u128 && valid_rep(lo, hi));
+    let a: TV = mk_tv(ka, a1, a2);
+    let p = ops::product(a, rep_range(lo, hi));
+    vcover!(ka == 3 && hi == 3);
+    vcover!(ka == 0 && a1 == 2 && hi == 4);
+    if a.has_upper_bound() && hi != 4 {
+        assert!(p.has_upper_bound(), "C09 a bounded body repeated a bounded number of times is depth-bounded");
+    }
+    if !a.has_upper_bound() && lo >= 1 {
+        assert!(!p.has_upper_bound(), "C09 an unbounded body stays unbounded under repetition");
+    }
+    if hi == 4 && !(ka == 0 && a1 == 0) {
+        assert!(!p.has_upper_bound(), "C09 an open repetition of a body with components is unbounded");
+    }
+}
+
 //@ob C10.natural.from_closed_and_open
 //@ props: C10 C19 C05
 //@ kind: complete
@@ -403,6 +450,6 @@ fn ob_c10_var_conjunction_modular(k: u8, a1: usize, a2: usize, n: usize, x: usiz
 //@ pre: none
 //@ post: must FAIL
 fn ob_c10_natural_canary(x: u8) {
-    let r = NaturalRange::from_closed_and_open(x as usize, None);
-    assert!(!mem_nr(&r, 200), "canary");
+    let _ = NaturalRange::from_closed_and_open(x as usize, None);
+    assert!(x != 7, "canary");
 }
